@@ -59,6 +59,60 @@ def run(tier, seed):
                     rep.violation("purity", "purity_outside_0_1", cname, dict(rp, code=p_u))
             if npairs <= 2:
                 rep.sample({"labels": lab, "preds": prd, "K": k, "expected_accuracy": acc, "expected_confusion": cm, "expected_recall": rec, "expected_purity_num": pur})
+    # ---- many classes, narrow caller dtypes: vectors recorded here, expectations computed by TLC from the same definitions
+    import os
+    from fractions import Fraction
+    rngk = random.Random(seed * 1000003 + 2020)
+    big = []
+    for i in range(90 if tier == "thorough" else 24):
+        K = (17, 20, 40, 33, 64, 18)[i % 6] if i >= 2 else (128, 130)[i]       # 128 classes as int8 (0..127), 130 as uint8
+        n_ = K + rngk.randrange(0, 2 * K)
+        lab = list(range(K)) + [rngk.randrange(K) for _ in range(n_ - K)]
+        rngk.shuffle(lab)
+        mode = i % 3
+        prd = list(lab) if mode == 0 else [(x if rngk.random() < 0.7 else rngk.randrange(K)) for x in lab] if mode == 1 else [rngk.randrange(K) for _ in lab]
+        big.append({"lab": lab, "prd": prd, "k": K, "dtype": ("int8", "uint8")[i] if i < 2 else ("uint8", "int8", "int16", "int32", "int64", "list", "uint16")[i % 7]})
+    pth = H.write_json(os.path.join(H.subdir("c20"), "big.json"), [{"lab": t["lab"], "prd": t["prd"], "k": t["k"]} for t in big])
+    resb = H.run_tlc("MeasuresTrace", "MeasuresTrace.cfg", workers=1, env={"TRACE_FILE": pth}, timeout=1200, heap="4g", tag="mtrace")
+    exp = {}
+    for p in resb.prints:
+        if p and p[0] == "MT":
+            exp[p[1]] = p
+    if len(exp) != len(big):
+        raise H.MachineryError("MeasuresTrace exported %d of %d traces\n%s" % (len(exp), len(big), resb.out[-1500:]))
+    rep.add_tlc("MeasuresTrace (%d vectors, K up to 130)" % len(big), resb, kind="trace")
+    for tid, t in enumerate(big, 1):
+        _, _, indom, cm, rec, pur = exp[tid]
+        if not indom:
+            raise H.MachineryError("generated vectors outside the domain")
+        K, lab, prd = t["k"], t["lab"], t["prd"]
+        n_ = len(lab)
+        npairs += 1
+        L = list(lab) if t["dtype"] == "list" else np.array(lab, dtype=t["dtype"])
+        Pp = list(prd) if t["dtype"] == "list" else np.array(prd, dtype=t["dtype"])
+        rp = {"labels": lab, "preds": prd, "input_type": t["dtype"], "K": K}
+        # accuracy from the exported counts, exactly (the definition's formula; see Measures.tla ErrTerm / Acc)
+        Nc = [sum(cm[c]) for c in range(K)]
+        FN = [Nc[c] - cm[c][c] for c in range(K)]
+        FP = [sum(cm[a][c] for a in range(K)) - cm[c][c] for c in range(K)]
+        acc = 1 - sum((Fraction(FP[c], n_ - Nc[c]) if n_ - Nc[c] else 0) + Fraction(FN[c], Nc[c]) for c in range(K)) / (2 * K)
+        try:
+            a = float(g.opf_accuracy(L, Pp))
+            c_m = np.asarray(g.confusion_matrix(L, Pp), dtype=float)
+            r_c = np.asarray(g.opf_accuracy_per_label(L, Pp), dtype=float)
+            p_u = float(g.purity(L, Pp))
+        except Exception as ex:
+            rep.violation("opfython.math.general", "measure_raised_on_in_domain_input", type(ex).__name__, dict(rp, exception=str(ex)[:200]))
+            continue
+        if not abs(a - float(acc)) <= 1e-12:
+            rep.violation("opf_accuracy", "accuracy_differs_from_definition", t["dtype"], dict(rp, code=a, expected=str(acc)))
+        if c_m.shape != (K, K) or any(c_m[i][j] != cm[i][j] for i in range(K) for j in range(K)):
+            rep.violation("confusion_matrix", "confusion_matrix_does_not_count_each_pair_once", t["dtype"], dict(rp, code_sum=float(c_m.sum())))
+        if len(r_c) != K or any(not abs(r_c[c] - rec[c][0] / rec[c][1]) <= 1e-12 for c in range(K)):
+            rep.violation("opf_accuracy_per_label", "per_label_accuracy_is_not_recall", t["dtype"], rp)
+        if not abs(p_u - pur / n_) <= 1e-12:
+            rep.violation("purity", "purity_differs_from_definition", t["dtype"], dict(rp, code=p_u, expected="%d/%d" % (pur, n_)))
+    rep.cov["many_class_vectors"] = len(big)
     rep.cov["label_prediction_pairs_replayed"] = npairs
     rep.cov["pairs_with_an_error_and_K_ge_2"] = nontrivial
     rep.count("traces_validated_against_impl", npairs)
@@ -99,7 +153,7 @@ def run(tier, seed):
                     break
     rep.cov["normalize_columns_compared"] = ncols
     rep.cov["exhaustive"] = True
-    rep.cov["rule"] = "all (labels, predictions) vectors with every class present, N and K as in the cfgs, each replayed into the five functions as lists and as ndarrays; normalize on integer-valued non-constant columns times scales 1e-12..1e6 against the z-score term"
+    rep.cov["rule"] = "all (labels, predictions) vectors with every class present, N and K as in the cfgs, each replayed into the five functions as lists and as ndarrays; vectors with 17..130 classes held as uint8/int8/int16/uint16/int32/int64 arrays and lists, expectations exported by TLC (MeasuresTrace) for exactly those vectors; normalize on integer-valued non-constant columns times scales 1e-12..1e6 against the z-score term"
     rep.assumptions = ["TLC computes the expected measures as exact rationals", "normalize: numeric comparison against the spec-held term (rtol 1e-9 with a conditioning allowance)", "exhaustive refers to the measure inputs within the bound; normalize is sampled"]
     return rep.finish()
 
